@@ -421,6 +421,7 @@ class World:
                 fv = ex.spec_eval(expr, fr, {})
                 res.fields[fname] = VBool(fv) if z3.is_expr(fv) else fv
         outcomes = [("return", None)]
+        evals = {}
         for en in (con.only_raises or []):
             outcomes.append(("raise", en))
         conds = []
@@ -431,7 +432,10 @@ class World:
             else:
                 fr.env.pop("result", None)
                 ecls = self.exc_class(en)
-                cs = []
+                et = ex.fresh("ecls", V)
+                evals[en] = VExc(VCls(et, name="<=" + ecls.name), {"__abstract__": True}, origin="call:%s" % con.qualname)
+                fr.env["exc"] = evals[en]
+                cs = [sym.sub(et, ecls.t)]
                 for en2, clauses in raises_.items():
                     if issubclass(ecls.py, self.exc_class(en2).py):
                         cs += [ex.spec_bool(cl, fr, {}) for cl in clauses.values()]
@@ -446,10 +450,9 @@ class World:
         kind, en = outcomes[k]
         if kind == "return":
             return res
-        ecls = self.exc_class(en)
-        t = ex.fresh("ecls", V)
-        ex.assume(sym.sub(t, ecls.t))
-        raise PyExc(VExc(VCls(t, name="<=" + ecls.name), {}, origin="call:%s" % con.qualname), node)
+        e = evals[en]
+        e.fields.pop("__abstract__", None)
+        raise PyExc(e, node)
 
     def contract_result(self, ex, con, fr):
         r = con.result
@@ -636,6 +639,8 @@ class World:
             if not c.items:
                 return z3.BoolVal(False)
             return z3.Or(*[self.isinstance_(ex, v, k) for k in c.items])
+        if isinstance(c, VFunc) and c.name == "type":
+            c = self.classes.of_py(type)
         if not isinstance(c, VCls):
             if isinstance(c, VObj):
                 return sym.sub(sym.ty(ex.box(v)), c.t)
@@ -904,6 +909,15 @@ class World:
                 return obj.fields[name]
             if name == "formatted_message":
                 return VStr(ex.fresh("msg", S))
+            if ex.spec_mode and obj.fields.get("__abstract__"):
+                # an exception raised by a contracted callee: attributes are unconstrained (memoised)
+                if name == "errors":
+                    n = ex.fresh("exc_errors_n", I)
+                    ex.assume(n >= 0)
+                    obj.fields[name] = VSeq("list", ex.fresh("exc_errors", sym.ARR), n)
+                else:
+                    obj.fields[name] = VObj(ex.fresh("exc_" + name, V))
+                return obj.fields[name]
             raise Unsupported("attribute %s of exception" % name)
         if isinstance(obj, VDec):
             return self.dec_getattr(ex, obj, name, node)
@@ -1262,8 +1276,13 @@ class World:
 
     def call_unknown(self, ex, fn, args, kwargs, node):
         """Calling an object of unknown class: result arbitrary object, may raise any Exception."""
-        if getattr(ex, "call_model", None) == "pure":
+        cm = getattr(ex, "call_model", None)
+        if cm == "pure":
             return self.call_pure(ex, fn, args, kwargs, node)
+        if cm in getattr(C, "CALL_MODELS", {}):
+            r = C.CALL_MODELS[cm](ex, fn, args, kwargs, node)
+            if r is not None:
+                return r
         self.ext.use(ex, "call of an unknown callable: arbitrary result or any Exception subclass; no side effects on tracked state")
         k = ex.choose([z3.BoolVal(True), z3.BoolVal(True)])
         if k == 0:
